@@ -232,7 +232,7 @@ structure WithResp where
 def runWithAsIs (sn : Sniff) (cfg : Cfg) (path ae : Bytes) (ops : List Op) : WithResp :=
   let enc := activeAsIs cfg path ae
   if enc.isEmpty then
-    let r := runPlain sn ops
+    let r := runPlain sn [] ops
     { panicked := r.1.panicked, resp := r.1.resp, decoded := some r.1.resp.body, outs := r.2 }
   else
     let r := runOps (CWA.step sn) ({ thr := cfg.minSize, enc := enc, exclCT := cfg.exclCT } : CWA) ops
